@@ -2562,7 +2562,12 @@ int32 parseCertificateRequest(ssl_t *ssl,
         while (len >= 2)
         {
             uint32_t val = HASH_SIG_MASK(c[0], c[1]);
-            keySelect->peerSigAlgs[nSigAlg++] = val;
+            if (nSigAlg < TLS_MAX_SIGNATURE_ALGORITHMS)
+            {
+                /* The list is peer controlled (up to 32767 entries fit the
+                   message); only as many as the array holds are kept. */
+                keySelect->peerSigAlgs[nSigAlg++] = val;
+            }
             ssl->peerSigAlg |= val;
             c += 2;
             len -= 2;
